@@ -4,13 +4,13 @@ import json
 import os
 
 ROOT = os.path.dirname(os.path.abspath(__file__))
-rows, rows2, rows3 = [], [], []
+rows, rows2, rows3, rows4 = [], [], [], []
 for d in sorted(glob.glob(os.path.join(ROOT, "seeded", "*", ""))):
     m = json.load(open(d + "meta.json"))
-    if m.get("round") in (2, 3):
+    if m.get("round") in (2, 3, 4):
         det = (m.get("detection") or {}).get("quick") or {}
         fp = (m.get("detection") or {}).get("first-pass") or {}
-        (rows2 if m.get("round") == 2 else rows3).append((os.path.basename(d.rstrip("/")), m["property"], (m.get("summary") or "").replace("|", "/").replace("\n", " ")[:260], (m.get("needs_to_manifest") or "").replace("|", "/").replace("\n", " ")[:200],
+        {2: rows2, 3: rows3, 4: rows4}[m.get("round")].append((os.path.basename(d.rstrip("/")), m["property"], (m.get("summary") or "").replace("|", "/").replace("\n", " ")[:260], (m.get("needs_to_manifest") or "").replace("|", "/").replace("\n", " ")[:200],
                       "detected" if fp.get("detected") else ("harness error" if fp.get("exit") == 3 else "missed"),
                       ("detected (%d VIOLATION lines)" % det.get("violation_lines", 0)) if det.get("detected") else (m.get("outside_claim") or f"NOT detected ({det.get('exit')})")))
         continue
@@ -72,6 +72,13 @@ nd3 = sum(1 for r in rows3 if r[5].startswith("detected"))
 nf3 = sum(1 for r in rows3 if r[4] == "detected")
 txt += ["", f"Round 3: {nf3} of {len(rows3)} were reported by the checks as they stood before the round; {nd3} of {len(rows3)} are reported now"
         " (C16-R3A is reported by C02, see its row).", ""]
+txt += open(os.path.join(ROOT, "seeded", "ROUND4.md")).read().rstrip().split("\n") + ["",
+        "| seeded change (round 4) | what it does | needs, to manifest | first pass | after strengthening (quick tier) |", "|---|---|---|---|---|"]
+for r in rows4:
+    txt.append(f"| {r[0]} | {r[2]} | {r[3]} | {r[4]} | {r[1]}: {r[5]} |")
+nd4 = sum(1 for r in rows4 if r[5].startswith("detected"))
+nf4 = sum(1 for r in rows4 if r[4] == "detected")
+txt += ["", f"Round 4: {nf4} of {len(rows4)} were reported by the check of the targeted property as it stood before the round; {nd4} of {len(rows4)} are reported now.", ""]
 s = open(os.path.join(ROOT, "DESIGN.md")).read()
 if "## 14. Seeded defects" in s:
     s = s[: s.index("## 14. Seeded defects")]
